@@ -41,6 +41,22 @@ def generate(tier, seed):
                 steps += [pick_op(rnd, al, dom)] + obs
             cases.append(case("eng", sp, adapter_X(adapter_M(initial_lines(rnd, dom, True)), script), "-", steps))
             dist["random"] += 1
+        # a load that fails PART-WAY while the in-memory policy differs from the adapter's contents (auto-save off, then
+        # edits): the rules already delivered must not survive, the old policy must stay, in its order
+        dist["partial_load"] = dist.get("partial_load", 0)
+        pr, gr = p_rules(dom), g_rules(dom)
+        edits = [A("p", "p", pr[4]), R("p", "p", pr[0]), A("g", "g", gr[3]), R("g", "g", gr[0]), A("p", "p", pr[5]), R("p", "p", pr[1])]
+        for k in (1, 2, 3):
+            for es in itertools.permutations(edits, k) if k < 3 else [tuple(rnd.sample(edits, 3)) for _ in range(20)]:
+                for ld in ("LD", "LF:%s:%s" % (enc_rule(["alice"]), enc_rule([])), "LF:%s:%s" % (enc_rule([]), enc_rule(["alice"]))):
+                    for fault in "hlf":
+                        steps = list(obs) + ["ES:0"]
+                        for o in es:
+                            steps += [o]
+                        steps += obs + [ld] + obs
+                        lines = [["p", "p"] + r for r in pr[:3]] + [["g", "g"] + r for r in gr[:2]]
+                        cases.append(case("eng", sp, adapter_X(adapter_M(lines), "p" + fault), "-", steps))
+                        dist["partial_load"] += 1
         # the string adapter rejects every incremental call
         for o in al[:20]:
             steps = list(obs) + [o] + obs
